@@ -18,7 +18,7 @@ Inductive raw :=
 | RFlag (b : bool)              (* flag, flag_present *)
 | RAddr (n : Z)                 (* addr *)
 | RSecOff (n : Z)               (* sec_offset *)
-| RBlock (b : list N)           (* block1/2/4/block *)
+| RBlock (big : bool) (b : list N)   (* block1/2/4/block; big: the file is big-endian *)
 | RExprloc                      (* exprloc *)
 | ROther.                       (* a form at_value does not know *)
 
@@ -84,7 +84,7 @@ Definition ATE_unsigned : N := 7.  Definition ATE_unsigned_char : N := 8.  Defin
 Definition ATE_packed_decimal : N := 10.  Definition ATE_signed_fixed : N := 13.  Definition ATE_unsigned_fixed : N := 14.
 Definition ATE_decimal_float : N := 15.   Definition ATE_UTF : N := 16.
 
-Definition is_block (r : raw) : bool := match r with RBlock _ => true | _ => false end.
+Definition is_block (r : raw) : bool := match r with RBlock _ _ => true | _ => false end.
 
 (* handle_encoding_data: None = "pass as block / fall through" *)
 Definition encoding_data (r : raw) (enc : N) : option aval :=
@@ -100,9 +100,10 @@ Fixpoint le_value (b : list N) : Z := match b with [] => 0 | x :: r => Z.of_N x 
 (* handle_encoding: a block of 1/2/4/8 bytes is read as data of that width *)
 Definition encoding_value (r : raw) (enc : N) : option aval :=
   match r with
-  | RBlock b =>
+  | RBlock big b =>
+    (* libdw reads the forged DW_FORM_dataN in the byte order of the file *)
     match length b with
-    | 1%nat | 2%nat | 4%nat | 8%nat => encoding_data (RData (N.of_nat (length b)) (le_value b)) enc
+    | 1%nat | 2%nat | 4%nat | 8%nat => encoding_data (RData (N.of_nat (length b)) (le_value (if big then rev b else b))) enc
     | _ => None
     end
   | _ => encoding_data r enc
@@ -150,7 +151,7 @@ Definition loc_ats : list N :=
    vendor attributes are assumed unsigned, anything else is an error *)
 Definition fallthrough (name : N) (r : raw) : aval :=
   match r with
-  | RBlock b => ABlock b
+  | RBlock _ b => ABlock b
   | _ => if (N.leb AT_lo_user name && N.leb name AT_hi_user)%bool then unsigned_with ADec r else AErr
   end.
 
@@ -197,7 +198,7 @@ Definition at_value (name : N) (r : raw) (c : tctx) : aval :=
     else match r with RSdata _ => signed_dec r | _ => unsigned_with ADec r end
   | RAddr n => ACst n AAddr
   | RFlag b => ACst (if b then 1 else 0) ABool
-  | RData _ _ | RSecOff _ | RBlock _ | RImplicit _ => dependent name r c
+  | RData _ _ | RSecOff _ | RBlock _ _ | RImplicit _ => dependent name r c
   | RExprloc => ALoc
   | ROther => AErr
   end.
